@@ -7,10 +7,11 @@ returns; `Canon u` is 0 ≤ u < 1, `CanonPos u` is 0 < u < 1 (used wherever the 
 for u = 0 the code computes log 0 = −∞, which has no counterpart in ℝ — those cases are shown on
 the real code by the check, keys `exponential-u0-inf`, `normal-u0-nonfinite`).
 Helper lemmas: Lemmas/DistReal.lean, DistSimple.lean, DistLoops.lean, DistMore.lean,
-DistPoisson.lean.
+DistPoisson.lean, DistUrban.lean, DistUrbanSample.lean.
 -/
 import CelerVerif.Lemmas.DistMore
 import CelerVerif.Lemmas.DistPoisson
+import CelerVerif.Lemmas.DistUrbanSample
 
 namespace CelerVerif.Dist
 open CelerVerif
@@ -565,6 +566,105 @@ theorem elossGamma_support (mean var : ℝ) (hm : 0 < mean) (hv : 0 < var) (fuel
   have hk : 0 < mean * mean / var := by positivity
   exact (gamma_support _ _ hk (by positivity) fuel s x g' rest h).1
 
+/-! ## Urban energy-loss fluctuation model (EnergyLossUrbanDistribution, EnergyLossHelper) -/
+
+/-- material parameters as computed by FluctuationParams.cc satisfy the Urban sum rules
+    f₁ + f₂ = 1 and f₁ ln E₁ + f₂ ln E₂ = ln I, for every material (any Z, I > 0) -/
+theorem urban_params_sum_rules (elDens numDens meanExc : ℝ) (he : 0 < elDens) (hn : 0 < numDens)
+    (hI : 0 < meanExc) :
+    (urbanParams elDens numDens meanExc).f1 + (urbanParams elDens numDens meanExc).f2 = 1 ∧
+    (urbanParams elDens numDens meanExc).f1 * (urbanParams elDens numDens meanExc).logE1
+      + (urbanParams elDens numDens meanExc).f2 * (urbanParams elDens numDens meanExc).logE2
+      = Real.log meanExc ∧
+    0 < (urbanParams elDens numDens meanExc).e1 ∧ 0 < (urbanParams elDens numDens meanExc).e2 ∧
+    0 < (urbanParams elDens numDens meanExc).f1 ∧ 0 ≤ (urbanParams elDens numDens meanExc).f2 :=
+  urbanParams_sum_rules elDens numDens meanExc he hn hI
+
+/-- ★ the defining identity of the Urban model, for EVERY branch of the constructor (no
+    excitation because E_max ≤ I or w ≤ ln I; the slow-particle window ln I < w ≤ ln E₂; two
+    levels; with or without the width correction): with Σᵢ the excitation cross sections and Eᵢ
+    the (rescaled) level energies stored by the constructor, Σ₃ the ionisation cross section and
+    ⟨E⟩₃ = E₀E_max ln(E_max/E₀)/(E_max − E₀) the mean of the 1/E² spectrum,
+        loss_scaling · (Σ₁E₁ + Σ₂E₂ + Σ₃⟨E⟩₃) = requested mean loss.
+    Hypotheses: the sum rules of the material (`urban_params_sum_rules`), mean > 0, and
+    E_max > E₀ = 10 eV (guaranteed by EnergyLossHelper, `helper_urban_precondition`). -/
+theorem urban_mean_identity (m : UrbanMat ℝ) (hm : UrbanMatOK m) (meanLoss maxEnergy tm b2 : ℝ)
+    (hL : 0 < meanLoss) (hE : 1 / 100000 < maxEnergy) :
+    (Urban.mk' m meanLoss maxEnergy tm b2).lossScaling *
+      ((Urban.mk' m meanLoss maxEnergy tm b2).xs1 * (Urban.mk' m meanLoss maxEnergy tm b2).be1
+        + (Urban.mk' m meanLoss maxEnergy tm b2).xs2 * (Urban.mk' m meanLoss maxEnergy tm b2).be2
+        + (Urban.mk' m meanLoss maxEnergy tm b2).xsIon * ionMean maxEnergy) = meanLoss :=
+  (urban_ctor_mean m hm meanLoss maxEnergy tm b2 hL hE).1
+
+/-- excitation loss, Gaussian fast path: the Gaussian handed to `sample_fast_urban` has mean
+    Σ_{Σᵢ>8} ΣᵢEᵢ and variance Σ_{Σᵢ>8} ΣᵢEᵢ² — both levels contribute when both exceed the
+    threshold — whatever the script; the levels with Σᵢ ≤ 8 are sampled collision by collision
+    (Poisson count n, energy n·Eᵢ on average: uniform on [(n−1)Eᵢ, (n+1)Eᵢ)) -/
+theorem urban_excitation_gauss_params (u : Urban ℝ) (fuel : ℕ) (s r : List ℝ) (x : ℝ)
+    (hb1 : 0 ≤ u.be1) (hb2 : 0 ≤ u.be2) (hs : CanonAll s)
+    (h : sampleExcitationLoss u fuel s = some (x, r)) :
+    ∃ res mn vr s2, 0 ≤ res ∧
+      mn = (if 8 < u.xs1 then u.xs1 * u.be1 else 0) + (if 8 < u.xs2 then u.xs2 * u.be2 else 0) ∧
+      vr = (if 8 < u.xs1 then u.xs1 * (u.be1 * u.be1) else 0)
+            + (if 8 < u.xs2 then u.xs2 * (u.be2 * u.be2) else 0) ∧
+      ((0 < vr ∧ ∃ g, sampleFastUrban mn (Real.sqrt vr) fuel s2 = some (g, r) ∧ x = res + g) ∨
+       (vr ≤ 0 ∧ x = res)) :=
+  (sampleExcitationLoss_spec u fuel s r x hb1 hb2 hs h).2.2
+
+/-- `sample_fast_urban` returns a value in [0, 2·mean], an interval symmetric about `mean`
+    (truncated Gaussian on (0, 2·mean] or uniform on [0, 2·mean)): the truncation keeps the mean -/
+theorem urban_fast_symmetric_support (mean sd : ℝ) (fuel : ℕ) (s r : List ℝ) (x : ℝ) (hm : 0 ≤ mean)
+    (hs : CanonAll s) (h : sampleFastUrban mean sd fuel s = some (x, r)) : 0 ≤ x ∧ x ≤ 2 * mean :=
+  ⟨(sampleFastUrban_spec mean sd fuel s r x hm hs h).1, (sampleFastUrban_spec mean sd fuel s r x hm hs h).2.1⟩
+
+/-- ionisation loss, fast simulation (Σ₃ > 8): the mean of the Gaussian part plus the mean of the
+    (Σ₃ − n_A) individually sampled collisions equals Σ₃·⟨E⟩₃ (w = E_max/E₀) -/
+theorem urban_ionization_mean_split (xs w : ℝ) (hxs : 8 < xs) (hw : 1 < w) :
+    1 < (ioniFast xs w).1 ∧ (ioniFast xs w).1 < w ∧
+    0 < (ioniFast xs w).2.1 ∧ (ioniFast xs w).2.1 < xs ∧ 0 ≤ (ioniFast xs w).2.2.1 ∧
+    (ioniFast xs w).2.2.1 + (xs - (ioniFast xs w).2.1)
+        * ((ioniFast xs w).1 * (1 / 100000)
+            * (Real.log (w / (ioniFast xs w).1) / (1 - (ioniFast xs w).1 / w)))
+      = xs * ((1 / 100000) * w * Real.log w / (w - 1)) :=
+  ioniFast_mean_split xs w hxs hw
+
+/-- ★ support: the sampled Urban loss is non-negative for every constructor branch and every
+    canonical script (the code enforces no upper bound: the number of collisions is Poisson;
+    each single ionisation is at most E_max, `ioniLoop_spec`) -/
+theorem urban_support (m : UrbanMat ℝ) (hm : UrbanMatOK m) (meanLoss maxEnergy tm b2 : ℝ)
+    (hL : 0 < meanLoss) (hE : 1 / 100000 < maxEnergy) (fuel : ℕ) (s r : List ℝ) (x : ℝ)
+    (hs : CanonAll s) (h : (Urban.mk' m meanLoss maxEnergy tm b2).sample fuel s = some (x, r)) :
+    0 ≤ x := by
+  obtain ⟨_, hls, _, _, _, hb1, hb2, hmax⟩ := urban_ctor_mean m hm meanLoss maxEnergy tm b2 hL hE
+  unfold Urban.sample at h
+  split at h
+  · simp at h
+  · next a s1 heq1 =>
+    obtain ⟨ha, hsuf1, _⟩ := sampleExcitationLoss_spec _ fuel s s1 a (le_of_lt hb1) (le_of_lt hb2)
+      hs heq1
+    split at h
+    · simp at h
+    · next b s2 heq2 =>
+      obtain ⟨hb, _⟩ := sampleIonizationLoss_nonneg _ fuel s1 s2 b (by rw [hmax]; exact hE)
+        (hs.suffix hsuf1) heq2
+      simp only [Option.some.injEq, Prod.mk.injEq] at h
+      rw [← h.1]
+      dist_simp
+      have : 0 ≤ a + b := by linarith
+      nlinarith
+
+/-- EnergyLossHelper: whenever a fluctuation model is selected (not `none`), the preconditions
+    of the samplers hold: mean loss ≥ 10 eV and E_max = min(cutoff, T_max) > 10 eV; the Gaussian
+    model is selected only if mean ≥ 2·σ_Bohr -/
+theorem helper_urban_precondition (i : HelperIn ℝ) (h : (Helper.mk' i).model ≠ FluctModel.none) :
+    1 / 100000 ≤ (Helper.mk' i).meanLoss ∧ 1 / 100000 < (Helper.mk' i).maxEnergy ∧
+    (Helper.mk' i).meanLoss = i.meanLoss ∧
+    ((Helper.mk' i).model = FluctModel.gaussian →
+      4 * (Helper.mk' i).bohrVar ≤ (Helper.mk' i).meanLoss * (Helper.mk' i).meanLoss) := by
+  unfold Helper.mk' at h ⊢
+  eloss_simp at h ⊢
+  split_ifs at h ⊢ <;> simp_all
+
 /-! ## Non-vacuity -/
 example : Canon 0 ∧ Canon (1 / 2) ∧ CanonPos (1 / 2) := by
   unfold Canon CanonPos; norm_num
@@ -587,5 +687,11 @@ example : elossGauss (1 : ℝ) 1 3 [0, 1] = some (1, []) := by
   rw [normal_eval_fresh _ rfl]
   dist_simp
   norm_num
+
+example : CanonAll [0, 1 / 2] := by
+  intro v hv; simp at hv; rcases hv with rfl | rfl <;> unfold Canon <;> norm_num
+/-- a material satisfying the Urban sum rules exists: one level E₁ = I = e⁻¹⁰ MeV, f₂ = 0 -/
+example : UrbanMatOK ⟨Real.exp (-10), -10, ⟨1, 0, Real.exp (-10), 1, -10, 0⟩⟩ :=
+  ⟨by norm_num, by norm_num, Real.exp_pos _, by norm_num, by norm_num, le_refl _, Or.inr rfl⟩
 
 end CelerVerif.Dist
